@@ -9,6 +9,7 @@ package main
 // tokens, in the order the harness goroutine performed / observed them:
 //   S:<o>:<restarted>                          SetOffset(o) returned
 //   D:<MsgString>                              FetchMessage returned a message
+//   P:<offset>:<lag>                           Reader.Offset() and Reader.Lag() observed right after the preceding S / D / E token
 //   E:k<code> | E:io                           FetchMessage returned a non-timeout error
 //   I:<gen>:<conn>:<f>:<l>:<f2>:<l2>           connection finished its initialisation (4 ListOffsets answers)
 //   X:<gen>                                    a dial of generation gen failed / conn died during initialisation
@@ -157,6 +158,9 @@ func (s *e2e) pump() {
 	}
 }
 
+// pos journals Reader.Offset() / Reader.Lag() as the user sees them now.
+func (s *e2e) pos() { s.tok("P:%s:%s", e2eH(s.rd.Offset()), e2eH(s.rd.Lag())) }
+
 func (s *e2e) tokI(id int, c *e2eConn) {
 	v := make([]string, 4)
 	for i := range v {
@@ -210,11 +214,14 @@ func (s *e2e) quiesce() bool {
 			ms := e2eMsgString(m)
 			s.tok("D:%s", ms)
 			s.deliv = append(s.deliv, ms)
+			s.pos()
 		case errors.Is(err, context.DeadlineExceeded):
 		case errors.As(err, &ke):
 			s.tok("E:k%s", e2eH(int64(ke)))
+			s.pos()
 		default:
 			s.tok("E:io")
+			s.pos()
 		}
 	}
 	s.pump()
@@ -231,6 +238,7 @@ func (s *e2e) setOffset(o int64) {
 		fmt.Fprintln(os.Stderr, "c02 e2e: SetOffset:", err)
 	}
 	s.tok("S:%s:%s", e2eH(o), kvfmt.Bool(restarted))
+	s.pos()
 	s.feats["setoffset"] = true
 }
 
@@ -548,8 +556,188 @@ func Repack(r *rand.Rand, recs []fetchfake.Record, o fetchfake.GenOpts, logEnd i
 	return l
 }
 
+// answerBatches answers pf with exactly the first n batches at its offset (n = 0: nothing to answer).
+func (s *e2e) answerBatches(pf *fetchfake.PendingFetch, n int) {
+	var all []byte
+	for i, b := range s.layout.FromOffset(pf.Offset) {
+		if i >= n {
+			break
+		}
+		all = append(all, s.enc.Batch(b)...)
+	}
+	pre := s.fpre(pf)
+	if pf.RespondData(s.last, all, len(all), -1) {
+		s.tok("%s:d:%s:%s:0:%s", pre, e2eH(s.last), e2eH(int64(len(all))), kvfmt.Bytes(all))
+	}
+}
+
+// waitPendingGen polls until the current generation has a fetch pending.
+func (s *e2e) waitPendingGen() *fetchfake.PendingFetch {
+	for {
+		if pf := s.fake.PendingGen(s.gen); pf != nil {
+			return pf
+		}
+		if s.remaining() == 0 {
+			s.hang = true
+			return nil
+		}
+		time.Sleep(200 * time.Microsecond)
+	}
+}
+
+// blockingRead: ONE FetchMessage call that waits for its message (the usual way to use a Reader):
+// when the Reader is not started yet this is the call that starts the fetcher AND returns the
+// first message.  While it waits, the harness answers the pending fetch with nb batches.
+func (s *e2e) blockingRead(nb int) bool {
+	if !s.started {
+		s.started = true
+		s.gen = 1
+		s.fake.SetGen(1)
+	}
+	type res struct {
+		m   kafka.Message
+		err error
+	}
+	ch := make(chan res, 1)
+	go func() {
+		ctx, cancel := context.WithTimeout(context.Background(), s.remaining())
+		m, err := s.rd.FetchMessage(ctx)
+		cancel()
+		ch <- res{m, err}
+	}()
+	pf := s.waitPendingGen()
+	if pf == nil {
+		return false
+	}
+	s.pump() // the connection's initialisation comes first in the journal
+	s.answerBatches(pf, nb)
+	r := <-ch
+	if r.err != nil {
+		s.tok("E:io")
+		s.pos()
+		return false
+	}
+	ms := e2eMsgString(r.m)
+	s.tok("D:%s", ms)
+	s.deliv = append(s.deliv, ms)
+	s.pos()
+	return true
+}
+
+// runE2ESetOffsetFamily: the Reader is positioned (default FirstOffset, SetOffset at a record,
+// SetOffset in a compaction hole, SetOffset(FirstOffset)), EXACTLY k messages are read
+// (single-record batches, a response of exactly k batches) — either by polling calls (the call
+// that starts the fetcher times out first; k = 0..3) or with a first call that blocks until its
+// message arrives (the call that starts the fetcher returns the first message; k = 1..3) —,
+// then SetOffset(o') with o' the same position again, one past it, the offset of the last
+// message returned, one past that, or an offset in a hole; then the Reader reads on.
+// Reader.Offset() / Reader.Lag() are journalled after every call.
+func runE2ESetOffsetFamily() {
+	const ts = int64(1600000000000)
+	offs := []int64{10, 11, 12, 14, 15, 17, 18, 19, 20, 21} // holes at 13 and 16
+	var layout fetchfake.Layout
+	for _, o := range offs {
+		layout = append(layout, fetchfake.PBatch{Fmt: 2, Base: o, Lod: 0, Ts: ts,
+			Recs: []fetchfake.Record{{Off: o, Ts: ts + o, Key: []byte(fmt.Sprintf("k%d", o)), Val: []byte(fmt.Sprintf("v%d", o))}}})
+	}
+	opts := fetchfake.GenOpts{Formats: []int{2}, Codecs: []int{0}, MaxBatch: 1, Holes: true}
+	starts := []struct {
+		name string
+		set  bool
+		o    int64
+	}{{"default", false, kafka.FirstOffset}, {"record", true, 12}, {"hole", true, 13}, {"first", true, kafka.FirstOffset}}
+	kinds := []string{"same", "same+1", "last", "last+1", "hole"}
+	vers := []int{2, 5, 10}
+	n := 0
+	for _, st := range starts {
+		for _, blocking := range []bool{false, true} {
+			for k := 0; k <= 3; k++ {
+				if blocking && k == 0 {
+					continue
+				}
+				for _, kind := range kinds {
+					n++
+					s := newE2E(rand.New(rand.NewSource(int64(n))), vers[n%3], layout, opts, 10, 22, 1<<20, 8)
+					func() {
+						if st.set {
+							s.setOffset(st.o)
+						}
+						if blocking {
+							if !s.blockingRead(k) {
+								return
+							}
+							if !s.quiesce() { // the other k-1 messages
+								return
+							}
+						} else {
+							if !s.quiesce() { // starts the fetcher (that call times out); the first fetch is pending
+								return
+							}
+							if k > 0 {
+								pf := s.fake.PendingGen(s.gen)
+								if pf == nil {
+									return
+								}
+								s.answerBatches(pf, k)
+								if !s.quiesce() { // exactly k messages are returned
+									return
+								}
+							}
+						}
+						pos := st.o // the value the Reader was positioned at
+						lastDelivered := int64(-100)
+						if len(s.deliv) > 0 {
+							var m int64
+							fmt.Sscanf(s.deliv[len(s.deliv)-1], "%x", &m)
+							lastDelivered = m
+						}
+						var o2 int64
+						switch kind {
+						case "same":
+							o2 = pos
+						case "same+1":
+							o2 = pos + 1
+							if pos < 0 {
+								o2 = 11
+							}
+						case "last":
+							o2 = lastDelivered
+							if lastDelivered < 0 {
+								o2 = 10
+							}
+						case "last+1":
+							o2 = lastDelivered + 1
+							if lastDelivered < 0 {
+								o2 = 11
+							}
+						case "hole":
+							o2 = 16
+						}
+						s.setOffset(o2)
+						for i := 0; i < 3; i++ {
+							if !s.quiesce() {
+								return
+							}
+							if pf := s.fake.PendingGen(s.gen); pf != nil {
+								s.answerBatches(pf, 2)
+							}
+						}
+						s.quiesce()
+					}()
+					mode := "polling"
+					if blocking {
+						mode = "blocking-first-read"
+					}
+					s.finish("e2e", "setoffset-family", "start="+st.name, mode, fmt.Sprintf("reads=%d", k), "then="+kind)
+				}
+			}
+		}
+	}
+}
+
 func runE2E(r *rand.Rand, n int) {
 	runE2EF1()
+	runE2ESetOffsetFamily()
 	for i := 0; i < n; i++ {
 		runE2EScenario(r)
 	}
